@@ -694,6 +694,8 @@ class Interp:
         if isinstance(base, NamedTup):
             if attr in base.names:
                 return base[base.names.index(attr)]
+            if base.klass is None:
+                raise AnalysisError(f"attribute .{attr} on a namedtuple not in vocabulary")
             g = self.repo.resolve(base.klass, attr, "getter")
             if g is not None:
                 return self.call_func(Closure(g, self_obj=base), [], {}, node)
@@ -931,6 +933,12 @@ class Interp:
             if env.get("__defcls__") is None or env.get("__selfobj__") is None:
                 raise AnalysisError("super() outside a method")
             return Super(env["__selfobj__"], env["__defcls__"])
+        if isinstance(e.func, ast.Name) and e.func.id == "super" and len(e.args) == 2 and "super" not in env:
+            # the explicit form super(Cls, self)
+            k, o = self.eval(e.args[0], env, mod), self.eval(e.args[1], env, mod)
+            if isinstance(k, Class) and isinstance(o, Obj):
+                return Super(o, k)
+            raise AnalysisError("super(cls, obj) with something else than a class of the repository and an object")
         fv = self.eval(e.func, env, mod)
         args = []
         for a in e.args:
